@@ -99,7 +99,7 @@ def run_case(ctx, case, reps) -> None:
             if isinstance(r, str):
                 ctx.count("registered_computers_used")
                 r = int(r)
-            g = sut.new_game(n, comp)
+            g = sut.object_for_case(ctx, case, comp, key=("sam", r))
             if case.get("dirty"):
                 # reach K through a history that leaves stale garbage in the unknown rows
                 boundcore.apply_ops(g, values, boundcore.make_history(ctx.rng, n, K, "dirty"))
